@@ -118,7 +118,7 @@ def check(name, s):
     except BaseException as e:  # noqa
         got = ("err", type(e).__name__)
     if ref[0] == "unspec":
-        if got[0] == "err" and got[1] not in ("ValueError",):
+        if got[0] == "err" and got[1] not in (("ValueError", "TypeError") if name == "timedelta" else ("ValueError",)):
             return ref[0], [("%s:wrong-exception:%s" % (name, got[1]), "%r -> %s" % (s, got[1]))]
         return ref[0], []
     out = []
@@ -173,6 +173,7 @@ def shards(tier, seed):
         specs.append({"kind": "unicode", "seed": seed * 1000 + 500 + i, "examples": per})
     # big ones first
     specs.sort(key=lambda s: -(len(s.get("alpha", "")) ** s.get("bound", 3)))
+    specs.insert(0, {"kind": "atheris", "seed": seed, "runs": 40000 if not thorough else 2000000})
     return specs
 
 
@@ -193,6 +194,10 @@ def run_shard(spec):
         _run_grammar(res, spec)
     elif kind == "unicode":
         _run_unicode(res, spec)
+    elif kind == "atheris":
+        import sys
+        from zcv import fuzzrun
+        fuzzrun.run(res, sys.modules[__name__], ID, spec["runs"], spec["seed"], max_len=48, timeout=1500)
     return res
 
 
@@ -532,3 +537,24 @@ def check_coverage(tier, counters):
         if name not in ("string", "null", "string-list") and counters.get("%s:err" % name, 0) < 10:
             problems.append("fewer than 10 rejected strings for %s" % name)
     return problems
+
+
+# ------------------------------------------------------------------ Atheris stage (python3-vt)
+
+
+def fuzz_decode(data):
+    if not data:
+        return []
+    names = sorted(refdt.REF)
+    return [{"type": names[data[0] % len(names)], "s": data[1:].decode("utf-8", "replace")[:80]}]
+
+
+def fuzz_seeds():
+    names = sorted(refdt.REF)
+    ex = {"basic-key": "Abc-1.x", "boolean": "yes", "byte-size": "10kb", "dotted-name": "a.b_c", "dotted-suffix": ".a.b",
+          "float": "1.5e3", "identifier": "_ab1", "inet-address": "[::1]:80", "inet-binding-address": "host:80",
+          "inet-connection-address": "80", "integer": "-12", "ipaddr-or-hostname": "fe80::1", "null": "x",
+          "port-number": "65535", "socket-address": "/tmp/s", "socket-binding-address": "h:1",
+          "socket-connection-address": "1.2.3.4:5", "string": "x", "string-list": "a b", "time-interval": "12h",
+          "timedelta": "4w 2.5d 7h 12m 0.001s"}
+    return [bytes([i]) + ex.get(n, "x").encode("utf-8") for i, n in enumerate(names)]
